@@ -202,3 +202,11 @@ func Snapshot() (violations []string, obs map[string]string, reach []string) {
 	sort.Strings(reach)
 	return append([]string(nil), Violations...), obs, reach
 }
+
+// Opaque reports whether s contains text the engine could not compute exactly (a placeholder
+// standing for formatted symbolic data). Natively nothing is opaque.
+func Opaque(s string) bool { return false }
+
+// Prune switches on or off the engine's "stop-at" cuts registered by the check (paths end
+// normally when a listed function is entered). Natively it does nothing.
+func Prune(on bool) {}
